@@ -9,7 +9,7 @@ import (
 	"github.com/shopspring/decimal"
 )
 
-const verifNumArgKinds = 23
+const verifNumArgKinds = 26
 
 // verifArgValue returns a value of the k-th kind; kinds 3 and 6 are symbolic
 // (an arbitrary 2-byte ASCII text, an arbitrary integer in [-100,155]);
@@ -70,11 +70,22 @@ func verifArgValue(k int) types.XValue {
 		return types.NewXNumber(decimal.New(1, 400))
 	case 22:
 		return types.NewXText("éé") // multi-byte characters: 2 characters, 4 bytes
+	case 23:
+		// an array of an arbitrary 2-byte text (may contain a line break) and an empty text
+		s := zzverif.String("item", 2)
+		for i := 0; i < len(s); i++ {
+			zzverif.Assume(s[i] != 0 && s[i] < 0x80 && (s[i] < '0' || s[i] > '9'))
+		}
+		return types.NewXArray(types.NewXText(s), types.XTextEmpty)
+	case 24:
+		return types.NewXNumberFromInt64(-(1 << 31)) // the smallest 32-bit integer
+	case 25:
+		return types.NewXNumberFromInt64(1<<31 - 1)
 	}
 	return XFUNCTIONS["upper"]
 }
 
-func verifIsSymbolicKind(k int) bool { return k == 3 || k == 6 }
+func verifIsSymbolicKind(k int) bool { return k == 3 || k == 6 || k == 23 }
 
 // VerifArgValue / VerifNumArgKinds export the argument menu to the harnesses
 // of other packages (router tests, operators).
